@@ -118,7 +118,7 @@ Section Sound.
   Lemma path_label st xs : path tbl lbl st xs ->
     exists l pre, label_of lbl (peek st) = Some l /\ rev xs = pre ++ l.
   Proof.
-    induction 1 as [|t s st X xs Hp IH He].
+    induction 1 as [|t s st X xs Hp IH He Hin].
     - exists [], []. split; [apply ok_label0|reflexivity].
     - destruct IH as [ls [pre [Hl Hx]]]. simpl in Hl.
       unfold edge_ok in He. rewrite Hl in He.
@@ -133,7 +133,7 @@ Section Sound.
     path tbl lbl (skipn k st) (skipn k xs).
   Proof.
     induction k as [|k IH]; intros st xs Hp Hk; [exact Hp|].
-    destruct Hp as [|t s st X xs Hp He]; simpl in Hk; [lia|].
+    destruct Hp as [|t s st X xs Hp He Hin]; simpl in Hk; [lia|].
     simpl. apply IH; [exact Hp|lia].
   Qed.
 
@@ -144,7 +144,7 @@ Section Sound.
     xs = [Nt (start G)].
   Proof.
     intros Hp Ha Hl El. subst l.
-    destruct Hp as [|t s st X xs Hp He].
+    destruct Hp as [|t s st X xs Hp He Hin].
     - simpl in Hl. rewrite ok_label0 in Hl. discriminate.
     - simpl in Ha, Hl.
       assert (Hs : s = 0%Z).
@@ -153,11 +153,11 @@ Section Sound.
         now apply Z.eqb_eq. }
       subst s.
       assert (Hx : xs = []).
-      { inversion Hp as [|t' s' st' X' xs' Hp' He' E1 E2]; subst; auto.
+      { inversion Hp as [|t' s' st' X' xs' Hp' He' Hin' E1 E2]; subst; auto.
         exfalso. unfold edge_ok in He'. destruct (label_of lbl s'); [|discriminate].
         destruct (label_of lbl 0%Z); [|discriminate]. discriminate. }
       subst xs.
-      destruct (path_label _ _ (path_cons tbl lbl t 0%Z st X [] Hp He)) as [l' [pre [Hl' Hx]]].
+      destruct (path_label _ _ (path_cons tbl lbl t 0%Z st X [] Hp He Hin)) as [l' [pre [Hl' Hx]]].
       simpl in Hl'. rewrite Hl in Hl'. inversion Hl'; subst l'. simpl in Hx.
       destruct pre as [|y pre]; simpl in Hx.
       + now inversion Hx.
@@ -248,7 +248,9 @@ Section Sound.
       left. exists (Leaf (Some a) :: ts). constructor; simpl.
       + unfold ast_stack. rewrite fold_left_app. simpl. unfold ast_stack in Hast. now rewrite <- Hast.
       + destruct st as [|s st]; [exfalso; eapply path_nonempty; eauto|].
-        simpl in He. now constructor.
+        simpl in He. constructor; auto. apply find_action_In in Ea. simpl in Ea.
+        unfold edges. apply in_or_app. left. apply in_flat_map.
+        exists (s, Some a, Shift t). split; [exact Ea|now left].
       + constructor; [constructor|exact Hwf].
       + rewrite flat_map_app'. simpl. rewrite <- app_assoc. exact Hy.
       + rewrite map_app. simpl. rewrite <- app_assoc. exact Hrm.
@@ -279,9 +281,12 @@ Section Sound.
       + left. exists (Node p (rev tch) :: ts0). constructor; simpl.
         * unfold ast_stack. rewrite fold_left_app. simpl. unfold ast_stack in Hast. rewrite <- Hast.
           fold k. rewrite pop_children_spec by exact Hk. now rewrite app_nil_r.
-        * unfold goto_or_err. fold k. rewrite Eg. apply ok_goto in Eg.
+        * unfold goto_or_err. fold k. rewrite Eg. pose proof (find_goto_In _ _ _ _ Eg) as Hgin.
+          apply ok_goto in Eg.
           destruct (skipn k st) as [|s' st'] eqn:Es; [exfalso; eapply path_nonempty; eauto|].
-          simpl in Eg. now constructor.
+          simpl in Eg, Hgin. constructor; auto.
+          unfold edges. apply in_or_app. right. apply in_map_iff.
+          exists (s', head p, t). split; [reflexivity|exact Hgin].
         * constructor; [|exact Hwf0]. constructor; auto.
           -- rewrite map_rev, Hfirst. apply rev_involutive.
           -- now apply Forall_rev.
